@@ -182,6 +182,9 @@ for root in (1, 0):
        desc="attr_path_parse on ALL byte strings of 7 characters (%s path), real table sizes: accepted <=> documented syntax, component count, no memory error, no leak" % rn)
     ob("apath.parse.scaled.n7.%s" % rn, "apath/apath.c", ["-DNSTR=7", "-DROOT=%d" % root], ["C19", "C10"], unwind=12, scaled=SC,
        desc="same on the scaled twin (ATTR_PATH_COMP_MAX 64->3, ATTR_PATH_NAME_MAX 255->6): the component-count and name-length limits are inside the bound (%s path)" % rn)
+    ob("apath.parse.comps.n7.%s" % rn, "apath/apath.c", ["-DNSTR=7", "-DROOT=%d" % root], ["C19", "C10"], unwind=12,
+       scaled=[("libxcm/core/attr_path.h", "ATTR_PATH_COMP_MAX", 2), ("libxcm/core/attr_path.h", "ATTR_PATH_NAME_MAX", 7), ("libxcm/core/attr_path.c", None, None)],
+       desc="scaled twin for the COMPONENT limit (ATTR_PATH_COMP_MAX 64->2, ATTR_PATH_NAME_MAX 255->7): all 7-character strings (%s path); strings with 3 and 4 components stay within the length limit, so it is the component-count check that must refuse them - nothing written past the table" % rn)
     ob("apath.print.scaled.n5.%s" % rn, "apath/apath.c", ["-DNSTR=5", "-DWITH_PRINT", "-DROOT=%d" % root], ["C19"], unwind=10, scaled=SC, quick_only=True,
        desc="parse -> to_str -> parse round trip, attr_path_len, equal_str on all 5-character strings (%s path)" % rn)
     ob("apath.print.scaled.n7.%s" % rn, "apath/apath.c", ["-DNSTR=7", "-DWITH_PRINT", "-DROOT=%d" % root], ["C19"], unwind=12, scaled=SC, tier="thorough", timeout=3000, mem_gb=30,
